@@ -3,15 +3,18 @@
   `lake exe driver < ops.txt > model.txt`. Core Lean only (no Mathlib), so it links.
 -/
 import Logg.Drive.C01
+import Logg.Drive.C11
 
 open Logg
 
 structure DriverState where
   c01 : GateState := { g := {}, levels := [] }
+  c11 : List ModeBits := []
 
 def dispatch (st : DriverState) (line : String) : DriverState × String :=
   match (line.splitOn " ").filter (· ≠ "") with
   | "C01" :: rest => let (s, o) := Drive.C01.step st.c01 rest; ({ st with c01 := s }, o)
+  | "C11" :: rest => let (s, o) := Drive.C11.step st.c11 rest; ({ st with c11 := s }, o)
   | _ => (st, "bad-op")
 
 partial def loop (h : IO.FS.Stream) (out : IO.FS.Stream) (st : DriverState) : IO Unit := do
